@@ -320,40 +320,62 @@ func (fi *FuncInfo) ReachableFrom(starts []int, stop func(int) bool) map[int]boo
 	return seen
 }
 
-// Between returns the instructions that may execute strictly after `from` and
-// strictly before `to` on some path from `from` to `to` (over-approximated:
-// whole blocks are included when they lie on a cycle). ok is false when `to`
-// cannot be reached from `from`.
+// Between returns the instructions that may execute strictly after the most
+// recent execution of `from` and before `to`, on some path from `from` to `to`
+// that does not execute `from` again (a re-execution produces a new value; the
+// facts concern the latest one). Whole blocks are included when they lie on
+// a cycle inside that region. ok is false when `to` cannot be reached.
 func (fi *FuncInfo) Between(from, to ssa.Instruction) (out []ssa.Instruction, ok bool) {
 	fb, tb := from.Block().Index, to.Block().Index
 	fIdx, tIdx := instrIndex(from), instrIndex(to)
-	fwd := fi.ReachableFrom(fi.Succs[fb], nil)
-	bwd := fi.canReach(tb)
 	if fb == tb && fIdx < tIdx {
 		ins := fi.liveInstrs(fb)
-		out = append(out, ins[min(fIdx+1, len(ins)):min(tIdx, len(ins))]...)
-		if !fwd[fb] {
-			return out, true
-		}
-	} else if !fwd[tb] {
+		return ins[min(fIdx+1, len(ins)):min(tIdx, len(ins))], true
+	}
+	barrier := func(b int) bool { return b == fb }
+	fwd := fi.ReachableFrom(fi.Succs[fb], barrier)
+	if !fwd[tb] {
 		return nil, false
-	} else {
-		ins := fi.liveInstrs(fb)
-		out = append(out, ins[min(fIdx+1, len(ins)):]...)
+	}
+	// blocks that can reach tb without passing through fb
+	bwd := map[int]bool{tb: true}
+	work := []int{tb}
+	for len(work) > 0 {
+		b := work[len(work)-1]
+		work = work[:len(work)-1]
+		if b == fb {
+			continue
+		}
+		for _, pr := range fi.Preds[b] {
+			if !bwd[pr] {
+				bwd[pr] = true
+				work = append(work, pr)
+			}
+		}
+	}
+	ins := fi.liveInstrs(fb)
+	out = append(out, ins[min(fIdx+1, len(ins)):]...)
+	tbLoop := false
+	if tb != fb {
+		r := fi.ReachableFrom(fi.Succs[tb], barrier)
+		tbLoop = r[tb]
 	}
 	for b := range fwd {
 		if !bwd[b] {
 			continue
 		}
-		ins := fi.liveInstrs(b)
-		if b == tb && !fwd[tb] {
-			continue
+		bi := fi.liveInstrs(b)
+		switch {
+		case b == fb:
+			// re-entering the block of `from`: only the part before `to` (which then precedes `from`)
+			if tb == fb {
+				out = append(out, bi[:min(tIdx, len(bi))]...)
+			}
+		case b == tb && !tbLoop:
+			out = append(out, bi[:min(tIdx, len(bi))]...)
+		default:
+			out = append(out, bi...)
 		}
-		if b == tb && !tbInLoop(fi, tb) {
-			out = append(out, ins[:min(tIdx, len(ins))]...)
-			continue
-		}
-		out = append(out, ins...)
 	}
 	return out, true
 }
